@@ -43,14 +43,20 @@ type Option func(*Config)
 // WithErrorHandler sets the error handler for scope creation failures.
 func WithErrorHandler(h func(echo.Context, error) error) Option {
 	return func(c *Config) {
-		c.ErrorHandler = h
+		// A nil handler keeps the default
+		if h != nil {
+			c.ErrorHandler = h
+		}
 	}
 }
 
 // WithCloseErrorHandler sets the error handler for scope close failures.
 func WithCloseErrorHandler(h func(error)) Option {
 	return func(c *Config) {
-		c.CloseErrorHandler = h
+		// A nil handler keeps the default
+		if h != nil {
+			c.CloseErrorHandler = h
+		}
 	}
 }
 
@@ -146,21 +152,30 @@ func WithPanicRecovery(enabled bool) HandlerOption {
 // WithPanicHandler sets the handler for panics.
 func WithPanicHandler(h func(echo.Context, any) error) HandlerOption {
 	return func(c *HandlerConfig) {
-		c.PanicHandler = h
+		// A nil handler keeps the default
+		if h != nil {
+			c.PanicHandler = h
+		}
 	}
 }
 
 // WithScopeErrorHandler sets the error handler for scope retrieval failures.
 func WithScopeErrorHandler(h func(echo.Context, error) error) HandlerOption {
 	return func(c *HandlerConfig) {
-		c.ScopeErrorHandler = h
+		// A nil handler keeps the default
+		if h != nil {
+			c.ScopeErrorHandler = h
+		}
 	}
 }
 
 // WithResolutionErrorHandler sets the error handler for service resolution failures.
 func WithResolutionErrorHandler(h func(echo.Context, error) error) HandlerOption {
 	return func(c *HandlerConfig) {
-		c.ResolutionErrorHandler = h
+		// A nil handler keeps the default
+		if h != nil {
+			c.ResolutionErrorHandler = h
+		}
 	}
 }
 
